@@ -63,9 +63,12 @@ class Disk:
             self.init[k] = c
             self.init[("facts", leaf, kind)] = list(st.facts[nf:])
             return c
-        for f in self.init.get(("facts", leaf, kind), []):
-            if not any(f is g or (is_z3(f) and is_z3(g) and f.eq(g)) for g in st.facts):
-                st.fact(f)
+        facts = self.init.get(("facts", leaf, kind), [])
+        if facts:
+            have = {g.get_id() for g in st.facts if is_z3(g)}
+            for f in facts:
+                if not (is_z3(f) and f.get_id() in have):
+                    st.fact(f)
         return self.init[k]
 
 
@@ -425,6 +428,35 @@ def ds_setitem(I, st, base, sl, val, node):
     set_disk(st, get_disk(I, st).put(base._leaf, ("h5", sets)))
 
 
+# ------------------------------------------------------------------------------------------------ generator state
+
+_BGSTATE = z3.Function("bit_generator_state", z3.IntSort(), ObjS)      # generator state -> state mapping object
+_BGSTATE_INV = z3.Function("bit_generator_state_inv", ObjS, z3.IntSort())
+
+
+def bit_generator_of(I, st, rng):
+    used("Generator.bit_generator.state: a value that determines, and is determined by, the generator state "
+         "(reading it and assigning it back restores the generator)")
+    o = Opaque(z3.Const(fresh_name("bitgen"), ObjS), "BitGenerator")
+    o._rng = rng   # type: ignore[attr-defined]
+    return o
+
+
+def bg_state_get(I, st, base):
+    s = to_z3(st.heap[base._rng.oid]["state"])
+    t = _BGSTATE(s)
+    st.fact(_BGSTATE_INV(t) == s)
+    return Opaque(t, None)
+
+
+def bg_state_set(I, st, base, val):
+    if not isinstance(val, Opaque):
+        raise Unsupported("bit_generator.state := non-state value")
+    s = _BGSTATE_INV(val.term)
+    st.fact(_BGSTATE(s) == val.term)     # the assigned value is a generator state (h5/json codec hands it back)
+    st.heap[base._rng.oid]["state"] = s
+
+
 # ------------------------------------------------------------------------------------------------ contract vocabulary
 
 def _name_arg(v):
@@ -508,7 +540,8 @@ lib.OPAQUE_METHODS.update({
 })
 lib.OPAQUE_GETITEM = {"DataFrame": df_getitem, "H5File": h5_getitem, "H5Dataset": ds_getitem}
 lib.OPAQUE_SETITEM = {"H5Dataset": ds_setitem}
-lib.OPAQUE_ATTRS = {"H5Dataset": {"shape": ds_shape}}
+lib.OPAQUE_ATTRS = {"H5Dataset": {"shape": ds_shape}, "BitGenerator": {"state": bg_state_get}}
+lib.OPAQUE_SETATTR = {"BitGenerator": {"state": bg_state_set}}
 lib.BUILTIN_FUNCS.update({
     "disk_exists": c_disk_exists, "disk_json": c_disk_json, "disk_json_has": c_disk_json_has,
     "disk_pickle": c_disk_pickle, "disk_csv": c_disk_csv, "disk_csv_has": c_disk_csv_has, "disk_h5": c_disk_h5,
